@@ -52,6 +52,13 @@ def _dataclass_arguments(decorators: list[Decorator]) -> dict[str, Any]:
     return {}
 
 
+def _is_field(attribute: Attribute) -> bool:
+    value = attribute.value
+    if isinstance(value, ExprAttribute):
+        value = value.last
+    return isinstance(value, ExprCall) and value.canonical_path == "dataclasses.field"
+
+
 def _field_arguments(attribute: Attribute) -> dict[str, Any]:
     if attribute.value:
         value = attribute.value
@@ -122,7 +129,7 @@ def _dataclass_parameters(class_: Class) -> list[Parameter]:
             if "default_factory" in field_args:
                 default = ExprCall(function=field_args["default_factory"], arguments=[])
             else:
-                default = field_args.get("default", None if field_args else member.value)
+                default = field_args.get("default", None if field_args or _is_field(member) else member.value)
 
             # Add parameter to the list.
             parameters.append(
